@@ -33,7 +33,8 @@ TIMEOUT = 20
 # --------------------------------------------------------------------------
 NAMES_SANE = [b"a", b"b", b"d", b"A", b"D", b"d.", b"..x", b"x..", b"...", b"\xc3\xa4", b"\xff", b"-", b"a b",
               b"d\\", b"e", b"f", b"x", b"~", b"\x01"]
-NAMES_BAD = [b".", b"..", b"/", b"a/b", b"/abs", b"d/x", b"../x", b"a/", b"//", b"../../outside/pwn", b"./a", b"d/.."]
+NAMES_BAD = [b".", b"..", b"/", b"a/b", b"/abs", b"d/x", b"../x", b"a/", b"//", b"../../outside/pwn", b"./a", b"d/..",
+             b".d/x", b".a/b", b"..a/b", b"./../x", b".../x"]
 NAMES_NUL = [b"\0", b"\0x", b"x\0y", b"a\0", b"d\0/..", b"..\0x", b".\0", b"d\0", b"\0/", b"a/b\0c"]
 TARGETS = [b"..", b"/", b"../../x", b"../../../outside", b"../../outside", b"/outside", b"/outside/secret", b"../side",
            b".", b"x", b"d", b"/w/side", b"../../../../../etc", b"a\0/../..", b"/secret", b"../../secret", b"../..",
@@ -172,6 +173,10 @@ def corpus():
         add("dup-dir-link", D(b"", D(b"d", F(b"pwn")), Ln(b"d", tgt)))
         add("dup-link-dir-nul", D(b"", Ln(b"d", tgt), D(b"d\0z", F(b"pwn"))))
         add("link-then-slashname", D(b"", Ln(b"d", tgt), F(b"d/pwn")))
+        # the same with names that begin with a dot (a '.'/'..' test placed in front of the '/' test must not hide it)
+        add("link-then-dot-slashname", D(b"", Ln(b".d", tgt), F(b".d/pwn")))
+        add("link-then-dot-slashdir", D(b"", Ln(b".d", tgt), D(b".d/e", F(b"pwn"))))
+        add("link-then-dotdot-slashname", D(b"", Ln(b"..d", tgt), F(b"..d/pwn"), Ln(b"..", tgt)))
         add("nested-dup", D(b"", D(b"s", Ln(b"d", (b"../" + tgt) if not tgt.startswith(b"/") else tgt), D(b"d", F(b"pwn"), D(b"e", F(b"pwn2"))))))
     add("dup-link-file", D(b"", Ln(b"side", b"../side"), F(b"side")))
     add("dup-file-link", D(b"", F(b"side"), Ln(b"side", b"../side")))
